@@ -17,6 +17,7 @@
 import os, re, struct, itertools, json
 from . import lib
 from . import c16_util as U
+from . import c16_reach
 
 NF = U.NF
 INT_KINDS = {'u8': (0, 2 ** 8 - 1), 'i8': (-2 ** 7, 2 ** 7 - 1), 'u16': (0, 2 ** 16 - 1), 'i16': (-2 ** 15, 2 ** 15 - 1),
@@ -295,7 +296,10 @@ def run(ctx):
             ctx.count(rep['harness_line'], klass='replay')
             if rep.get('expected') is not None and rep.get('field') and rep['expected'] not in r.split(' '):
                 ctx.violation(rep['key'], 'replay: field %s still differs from `%s`' % (rep['field'], rep['expected'][:200]), {'harness_line': rep['harness_line'], 'reply': r[:2000]})
-        if 'schema' in rep:
+        if 'schema' in rep and 'reach_depth' in rep:
+            ctx.count(rep['schema'], klass='replay')
+            c16_reach.replay(ctx, rep)
+        elif 'schema' in rep:
             ctx.count(rep['schema'], klass='replay')
             r = check_schema_text(ctx, rep['schema'], 'replay', None, None if rep.get('feature') in (None, 'none') else rep['feature'])
             if r: ctx.violation(r[0], r[1], {'schema': rep['schema'], 'feature': rep.get('feature')})
@@ -390,6 +394,8 @@ def run(ctx):
     run_recursive(ctx, H)
     # ---- (5) generated sorter text for random schemas
     run_schemas(ctx)
+    # ---- (6) reachability of sorted vectors through every kind of edge: generated schemas + generated programs
+    c16_reach.run(ctx)
 
     ctx.trusted = lib.DEFAULT_TRUSTED + ['python oracles in checks/c16_util.py (key order, first/last match, expected sorter calls from the schema AST)']
     ctx.assumptions = ['little-endian host, 64-bit size_t (no size_t wrap for vector lengths below 2^32), 32-bit uoffset_t (static assert in the harness)',
